@@ -81,6 +81,16 @@ Definition obs_match (m : cmp_mode) (cmp_off : bool) (model go : obs) : bool :=
   | _, _ => false
   end.
 
+(* boolean equality of two outcomes over binary64 values; used by the examples
+   in Properties/ (an equation between outcomes must not be handed to
+   vm_compute directly: normalising its type would normalise the whole FloatNum
+   record, fuelled text functions included) *)
+Definition same_outcome (a b : outcome (@value FloatNum)) : bool :=
+  match a, b with
+  | OutOfFuel, OutOfFuel => true
+  | _, _ => obs_match Exact true (obs_of_outcome false a) (obs_of_outcome false b)
+  end.
+
 (* ---- Search cases ---- *)
 Record scase := SCase {
   sc_id : nat; sc_expr : bytes; sc_doc : @value FloatNum; sc_mode : cmp_mode;
